@@ -224,11 +224,11 @@ theorem treesNZ_add (hph : ∀ a b : H, ph a b ≠ (zero : H)) {F : Forest H} (h
 /-- **One addition** (`addOne` = one iteration of `Pollard.add`, incl. `calculateNewRoot` over
 live and empty roots): on a full pollard representing `F` it succeeds and the result
 represents `F.add x`. -/
-theorem addOne_abs {p : Pollard H} {F : Forest H} (a : Abs p F) (hfull : p.full = true)
+theorem addOne_abs_full {p : Pollard H} {F : Forest H} (a : Abs p F) (hfull : p.full = true)
     (hn : F.numLeaves + 1 < 2 ^ 64) (x : H) (rem : Bool) (hx : x ∉ p.nodeMap.map (·.1))
     (hnz : TreesNZ F) :
     ∃ p', addOne (x, rem) p = (.ok (), p') ∧ Abs p' (F.add x) ∧ p'.full = true ∧
-      p'.nodeMap = (x, p.heap.size) :: p.nodeMap := by
+      p'.nodeMap = (x, p.heap.size) :: p.nodeMap ∧ p'.numDels = p.numDels := by
   obtain ⟨hp, nm, roots, nl, ndl, full⟩ := p
   simp only at hfull hx
   subst hfull
@@ -276,7 +276,7 @@ theorem addOne_abs {p : Pollard H} {F : Forest H} (a : Abs p F) (hfull : p.full 
       rw [trees_decomp F hF (by omega)]
       exact List.mem_append_right _ hq)
     ⟨_, eleaf, rfl⟩
-  refine ⟨⟨hp', (x, hp.size) :: nm, rsHigh ++ [nd'], nl + 1#64, ndl, true⟩, ?_, ?_, rfl, rfl⟩
+  refine ⟨⟨hp', (x, hp.size) :: nm, rsHigh ++ [nd'], nl + 1#64, ndl, true⟩, ?_, ?_, rfl, rfl, rfl⟩
   · -- execution
     unfold addOne calculateNewRoot
     simp only [bind_apply, alloc_apply, getFull_apply, if_true, setNode_apply, node_apply,
@@ -327,25 +327,35 @@ theorem addOne_abs {p : Pollard H} {F : Forest H} (a : Abs p F) (hfull : p.full 
             · exact Or.inr (Or.inr h)
             · exact Or.inl h
 
-/-- **`Pollard.add`**: any list of distinct, non-zero, not yet tracked leaves -/
-theorem add_abs (hph : ∀ a b : H, ph a b ≠ (zero : H)) : ∀ (adds : List (H × Bool)) {p : Pollard H}
+/-- one addition (statement without the `NumDels` clause) -/
+theorem addOne_abs {p : Pollard H} {F : Forest H} (a : Abs p F) (hfull : p.full = true)
+    (hn : F.numLeaves + 1 < 2 ^ 64) (x : H) (rem : Bool) (hx : x ∉ p.nodeMap.map (·.1))
+    (hnz : TreesNZ F) :
+    ∃ p', addOne (x, rem) p = (.ok (), p') ∧ Abs p' (F.add x) ∧ p'.full = true ∧
+      p'.nodeMap = (x, p.heap.size) :: p.nodeMap := by
+  obtain ⟨p', h1, h2, h3, h4, _⟩ := addOne_abs_full a hfull hn x rem hx hnz
+  exact ⟨p', h1, h2, h3, h4⟩
+
+/-- **`Pollard.add`**: any list of distinct, non-zero, not yet tracked leaves (`NumDels` is not
+touched) -/
+theorem add_abs_full (hph : ∀ a b : H, ph a b ≠ (zero : H)) : ∀ (adds : List (H × Bool)) {p : Pollard H}
     {F : Forest H}, Abs p F → p.full = true → F.numLeaves + adds.length < 2 ^ 64 →
     (adds.map (·.1)).Nodup → (∀ e ∈ adds, e.1 ∉ p.nodeMap.map (·.1) ∧ e.1 ≠ zero) → TreesNZ F →
     ∃ p', add adds p = (.ok (), p') ∧ Abs p' (F.addMany (adds.map (·.1))) ∧ p'.full = true ∧
-      TreesNZ (F.addMany (adds.map (·.1))) := by
+      TreesNZ (F.addMany (adds.map (·.1))) ∧ p'.numDels = p.numDels := by
   intro adds
   induction adds with
   | nil =>
     intro p F a hfull hn hnd hx hnz
-    exact ⟨p, rfl, by simpa [addMany_nil] using a, hfull, by simpa [addMany_nil] using hnz⟩
+    exact ⟨p, rfl, by simpa [addMany_nil] using a, hfull, by simpa [addMany_nil] using hnz, rfl⟩
   | cons e adds ih =>
     intro p F a hfull hn hnd hx hnz
     simp only [List.length_cons] at hn
     simp only [List.map_cons, List.nodup_cons] at hnd
-    obtain ⟨p1, h1, a1, f1, m1⟩ := addOne_abs a hfull (by omega) e.1 e.2
+    obtain ⟨p1, h1, a1, f1, m1, d1⟩ := addOne_abs_full a hfull (by omega) e.1 e.2
       (hx e (by simp)).1 hnz
     have hnz1 := treesNZ_add hph hnz e.1 (hx e (by simp)).2 (by omega)
-    obtain ⟨p2, h2, a2, f2, z2⟩ := ih a1 f1 (by rw [numLeaves_add]; omega) hnd.2
+    obtain ⟨p2, h2, a2, f2, z2, d2⟩ := ih a1 f1 (by rw [numLeaves_add]; omega) hnd.2
       (by
         intro e' he'
         refine ⟨?_, (hx e' (by simp [he'])).2⟩
@@ -355,13 +365,23 @@ theorem add_abs (hph : ∀ a b : H, ph a b ≠ (zero : H)) : ∀ (adds : List (H
         intro h
         exact hnd.1 (by rw [← h]; exact List.mem_map_of_mem he'))
       hnz1
-    refine ⟨p2, ?_, ?_, f2, ?_⟩
+    refine ⟨p2, ?_, ?_, f2, ?_, d2.trans d1⟩
     · show (addOne e >>= fun _ => add adds) p = _
       simp only [bind_apply]
       rw [show addOne e p = (Out.ok (), p1) from h1]
       exact h2
     · rw [List.map_cons, addMany_cons]; exact a2
     · rw [List.map_cons, addMany_cons]; exact z2
+
+/-- **`Pollard.add`** (statement without the `NumDels` clause) -/
+theorem add_abs (hph : ∀ a b : H, ph a b ≠ (zero : H)) (adds : List (H × Bool)) {p : Pollard H}
+    {F : Forest H} (a : Abs p F) (hfull : p.full = true) (hn : F.numLeaves + adds.length < 2 ^ 64)
+    (hnd : (adds.map (·.1)).Nodup) (hx : ∀ e ∈ adds, e.1 ∉ p.nodeMap.map (·.1) ∧ e.1 ≠ zero)
+    (hnz : TreesNZ F) :
+    ∃ p', add adds p = (.ok (), p') ∧ Abs p' (F.addMany (adds.map (·.1))) ∧ p'.full = true ∧
+      TreesNZ (F.addMany (adds.map (·.1))) := by
+  obtain ⟨p', h1, h2, h3, h4, _⟩ := add_abs_full hph adds a hfull hn hnd hx hnz
+  exact ⟨p', h1, h2, h3, h4⟩
 
 /-! ### the empty accumulator -/
 
